@@ -20,6 +20,13 @@ lines (field 2 is lsb0 = 0/1; model_line() inserts the thresholds T,A,B read fro
   C13 nonprom <lsb0> <objA> <kind> <payload> -> ok FTFT
   C13 hash    <lsb0> <obj>                   -> ok <hex of the bytes the code hashes> <len>  |  err TypeError
   C13 member  <lsb0> <objA> <objB>           -> ok <b in [a]> <b in {a}> <len({a, b})>   (U U when a set cannot be built)
+  C13 promst  <lsb0> <objA> <order> <kind> <state> <payload>
+        ONE right-hand operand object X with hidden state (io.BytesIO fresh / filled with write() / partly read / seek()ed /
+        at the end / used before as operand or initialiser; open file handle at a non-zero position; memoryview slice; or any
+        other promotable kind, the same object re-used) is compared eight times — a==X a==X a!=X a!=X X==a X==a X!=a X!=a,
+        order=1 runs them back to front — and then used twice as an initialiser (b = Cls(X); c = Cls(X)).
+                                             -> ok <8 x T/F in the canonical order> <b==r><c==r><b==c><b in {r}><c in {b}>
+        r = a plain object holding X's WHOLE content (getvalue() / the file / the slice); UU for the unhashable classes.
 """
 from harness.common import *
 import ast, atexit, builtins, copy as _copy, io, array, shutil, tempfile, hashlib
@@ -143,7 +150,7 @@ def parse_obj(s: str):
 def route_ok(route: str, n: int, cls: str = "Bits") -> bool:
     if route in ("hex", "autohex"):
         return n > 0 and n % 4 == 0
-    if route in ("file", "filefull", "fileobj", "bytesio"):
+    if route in ("file", "filefull", "fileobj", "bytesio", "biow", "bio2", "bior"):
         return n > 0 and n % 8 == 0
     if route == "inv":
         return n > 0
@@ -170,6 +177,19 @@ def build(s: str):
             x = C(bytes=_tobytes(_pad8(_junk(param) + bits)), offset=param, length=n)
         elif route == "bytesio":
             x = C(io.BytesIO(_tobytes(bits)))
+        elif route == "biow":                               # a BytesIO filled with write(): position at the end
+            w = io.BytesIO()
+            w.write(_tobytes(bits)[:param])
+            w.write(_tobytes(bits)[param:])
+            x = C(w)
+        elif route == "bio2":                               # the second object built from one BytesIO
+            w = io.BytesIO(_tobytes(bits))
+            C(w)
+            x = C(w)
+        elif route == "bior":                               # a BytesIO from which a header was read before
+            w = io.BytesIO(_tobytes(bits))
+            w.read(1 + param % max(1, n // 8))
+            x = C(w)
         elif route == "iter":
             x = C([int(c) for c in bits])
         elif route == "ba":
@@ -218,7 +238,10 @@ def build(s: str):
         else:
             raise ValueError("route " + route)
         if pos and cls in ("ConstBitStream", "BitStream"):
-            x.pos = pos
+            try:
+                x.pos = pos
+            except ValueError:              # the route produced a shorter object than asked for: the oracle will say so
+                pass
     return x
 
 
@@ -299,6 +322,65 @@ def operand(kind: str, payload: str):
     raise ValueError(kind)
 
 
+BIO_STATES = ["fresh", "write", "write2", "read1", "read3", "end", "seek0", "seekmid", "seekend", "used", "usedeq", "usedlen", "usedoff"]
+FH_STATES = ["fresh", "read1", "read3", "end", "seekmid", "used"]
+
+
+def stateful_operand(kind: str, state: str, payload: str):
+    """ONE operand object in the given state; the documented promotion of each of these kinds takes its whole content."""
+    hexb = lambda h: b"" if h == "-" else bytes.fromhex(h)
+    if kind == "bytesio":
+        data = hexb(payload)
+        if state in ("write", "write2", "seek0"):
+            x = io.BytesIO()
+            if state == "write2":
+                x.write(data[:len(data) // 2]); x.write(data[len(data) // 2:])
+            else:
+                x.write(data)
+            if state == "seek0":
+                x.seek(0)
+            return x
+        x = io.BytesIO(data)
+        if state == "read1":
+            x.read(1)
+        elif state == "read3":
+            x.read(3)
+        elif state == "end":
+            x.read()
+        elif state == "seekmid":
+            x.seek(len(data) // 2)
+        elif state == "seekend":
+            x.seek(0, 2)
+        elif state == "used":
+            Bits(x)
+        elif state == "usedeq":
+            Bits() == x                                     # noqa: B015
+        elif state == "usedlen" and data:
+            Bits(x, length=8 * len(data))
+        elif state == "usedoff" and data:
+            Bits(x, offset=3)
+        return x
+    if kind == "fileobj":
+        data = hexb(payload)
+        x = open(_newfile("".join(format(b, "08b") for b in data)), "rb")
+        if state == "read1":
+            x.read(1)
+        elif state == "read3":
+            x.read(3)
+        elif state == "end":
+            x.read()
+        elif state == "seekmid":
+            x.seek(len(data) // 2)
+        elif state == "used":
+            Bits(x)
+        return x
+    if kind == "mvslice":
+        h, sl = payload.split(";")
+        a, b, c = [None if v == "None" else int(v) for v in sl.split(":")]
+        return memoryview(hexb(h))[a:b:c]
+    return operand(kind, payload)()
+
+
 def operand_bits(kind: str, payload: str) -> str:
     """Independent reference: the bits a promotable operand stands for, from its documented meaning."""
     p = payload
@@ -318,6 +400,10 @@ def operand_bits(kind: str, payload: str) -> str:
         return "" if h == "-" else "".join(format(b, "08b") for b in bytes.fromhex(h))
     if kind in ("bitarray", "bitarrayle"):
         return unwire(p)
+    if kind == "mvslice":
+        h, sl = p.split(";")
+        a, b, c = [None if v == "None" else int(v) for v in sl.split(":")]
+        return "".join(format(v, "08b") for v in (b"" if h == "-" else bytes.fromhex(h))[a:b:c])
     if kind in ("list", "tuple", "gen"):
         return "" if p == "-" else "".join("1" if _elem(t) else "0" for t in p.split(","))
     if kind == "range":
@@ -441,6 +527,48 @@ def _execute(f):
                  _tf(lambda: use(lambda x: x == a)), _tf(lambda: use(lambda x: x != a))]
             out = "ok " + "".join(r)
             extra["again"] = _tf(lambda: use(lambda x: a == x)) + _tf(lambda: use(lambda x: a != x))
+        extra["unchanged"] = _state(a) == before
+    elif op == "promst":
+        a = build(f[3])
+        before = _state(a)
+        order, kind, state, payload = f[4], f[5], f[6], f[7]
+        x = stateful_operand(kind, state, payload)
+        C = type(a)
+        try:
+            with options(lsb0=lsb0):
+                forms = [lambda: a == x, lambda: a == x, lambda: a != x, lambda: a != x,
+                         lambda: x == a, lambda: x == a, lambda: x != a, lambda: x != a]
+                idx = list(range(8))
+                if order == "1":
+                    idx.reverse()
+                res = [None] * 8
+                for i in idx:
+                    res[i] = _tf(forms[i])
+                try:
+                    b = C(x)
+                    c = C(x)
+                    r = mk(type(a).__name__, operand_bits(kind, payload))
+                    built = _tf(lambda: b == r) + _tf(lambda: c == r) + _tf(lambda: b == c)
+                    try:
+                        built += ("T" if b in {r} else "F") + ("T" if c in {b} else "F")
+                        extra["hash3"] = (hash(b) == hash(c) == hash(r))
+                        extra["set3"] = len({r, b, c})
+                    except TypeError:
+                        built += "UU"
+                    extra["lens"] = (len(b), len(c))
+                except Exception as e:                      # noqa: BLE001
+                    built = "E"
+                    extra["build_error"] = repr(e)
+                out = "ok %s %s" % ("".join(res), built)
+                if kind in ("bytesio",):
+                    extra["content_after"] = x.getvalue().hex() or "-"
+                elif kind in ("bytes", "bytearray", "memoryview", "mvslice"):
+                    extra["content_after"] = bytes(x).hex() or "-"
+                elif kind in ("bitarray", "bitarrayle"):
+                    extra["content_after"] = x.to01() or "-"
+        finally:
+            if hasattr(x, "close") and kind == "fileobj":
+                x.close()
         extra["unchanged"] = _state(a) == before
     elif op == "hash":
         a = build(f[3])
@@ -580,6 +708,28 @@ def oracle(line: str, out: str, extra: dict):
                 if extra.get("cross_mode_lookup") != tf(e) * 2:
                     return f"lookup in a set/dict filled under the other lsb0 setting gives {extra.get('cross_mode_lookup')}, expected {tf(e) * 2}"
         return None
+    if op == "promst":
+        a = parse_obj(f[3])
+        kind, payload = f[5], f[7]
+        xbits = operand_bits(kind, payload)
+        e = a[3] == xbits
+        exp8 = tf(e) * 2 + tf(not e) * 2 + tf(e) * 2 + tf(not e) * 2
+        expb = "TTT" + ("TT" if a[0] in HASHABLE else "UU")
+        if out != "ok %s %s" % (exp8, expb):
+            return (f"expected ok {exp8} {expb} (every evaluation against the same operand object sees its whole content, "
+                    f"whatever its position / history; objects built from it equal that content), got {out}"
+                    + (f" [{extra.get('build_error')}]" if extra.get("build_error") else ""))
+        if a[0] in HASHABLE and (extra.get("hash3") is not True or extra.get("set3") != 1):
+            return f"objects built from the same operand hash differently / form a set of {extra.get('set3')}"
+        if extra.get("lens") not in (None, (len(xbits), len(xbits))):
+            return f"objects built from the operand have lengths {extra.get('lens')}, content has {len(xbits)} bits"
+        if "content_after" in extra:
+            want = {"bitarray": wire(xbits), "bitarrayle": wire(xbits)}.get(kind)
+            if want is None:
+                want = (_tobytes(xbits).hex() or "-")
+            if extra["content_after"] != want:
+                return "the operand's content was changed by comparing with it / building from it"
+        return None
     if op in ("prom", "nonprom"):
         a = parse_obj(f[3])
         if op == "prom":
@@ -613,15 +763,17 @@ def oracle(line: str, out: str, extra: dict):
 
 def nontrivial(line: str) -> bool:
     f = line.split(SEP)
+    if f[1] == "promst":
+        return f[3].split(",")[3] != "-" or f[7] not in ("-", "")
     return any(s != "=" and s.count(",") >= 4 and s.split(",")[3] != "-" for s in f[3:])
 
 
 REGIONS = {}            # no known finding: the two defects this check found first (file-backed length limit, little-endian bitarray source) were fixed
 
 # ------------------------------------------------------------------------------------------------ generators
-ROUTES = ["bin", "auto", "cache", "hex", "autohex", "bytes", "bytesio", "iter", "ba", "bakw", "bale", "slice", "add", "copy", "conv",
+ROUTES = ["bin", "auto", "cache", "hex", "autohex", "bytes", "bytesio", "biow", "bio2", "bior", "iter", "ba", "bakw", "bale", "slice", "add", "copy", "conv",
           "inv", "mappend", "mdel", "mset", "file", "filefull", "filelen", "fileoff", "fileoffn", "fileobj"]
-CHEAP_ROUTES = ["bin", "auto", "cache", "bytes", "iter", "ba", "bakw", "slice", "add", "copy", "conv", "inv", "hex", "bytesio", "bale",
+CHEAP_ROUTES = ["bin", "auto", "cache", "bytes", "iter", "ba", "bakw", "slice", "add", "copy", "conv", "inv", "hex", "bytesio", "bale", "biow", "bio2", "bior",
                 "mappend", "mdel", "mset"]
 FILE_ROUTES = ["file", "filefull", "filelen", "fileoff", "fileoffn", "fileobj"]
 
@@ -631,7 +783,7 @@ def obj(rng, cls, route, bits, pos=None):
     if not route_ok(route, n, cls):
         route = "bin"
     tail, param = "", 0
-    if route in ("bytes", "bakw", "slice"):
+    if route in ("bytes", "bakw", "slice", "biow", "bior"):
         param = rng.choice([0, 1, 3, 7, 8, 9, 13])
     elif route in ("add", "mappend"):
         param = rng.choice([0, n, n // 2, min(n, 1), max(0, n - 1), min(n, 8)])
@@ -752,6 +904,8 @@ def gen(rng, tier: str):
             yield L("hash", lsb(), obj(rng, anycls(), anyroute(), bits))
     # 5. promotable right-hand operands
     yield from gen_prom(rng, 40000 if thorough else 7000)
+    # 5b. right-hand operands with hidden state, the same object evaluated repeatedly and then used as an initialiser
+    yield from gen_promst(rng, 12000 if thorough else 2200)
     # 6. non-promotable right-hand operands: every kind x class x a few contents
     NON = [("int", "i5"), ("int", "i0"), ("int", "i1"), ("int", "i-3"), ("bool", "T"), ("bool", "F"), ("float", "fz"), ("float", "fn"),
            ("float", "fN"), ("float", "fi"), ("none", "-"), ("object", "-"), ("object", "thing"), ("complex", "-"), ("class", "-"), ("func", "-")]
@@ -868,3 +1022,75 @@ def gen_prom(rng, N):
         abits = xbits if r < 0.55 else (rng.choice(near(rng, xbits)) if r < 0.9 else content(rng, rng.choice(SMALL)))
         route = rng.choice(ROUTES) if rng.random() < 0.35 else rng.choice(CHEAP_ROUTES)
         yield L("prom", lsb(), obj(rng, cls, route, abits), kind, payload)
+
+
+def gen_promst(rng, N):
+    L = lambda *a: SEP.join(["C13"] + list(a))
+    lsb = lambda: "1" if rng.random() < 0.3 else "0"
+
+    def lefts(xbits, skip_bytes):
+        """left-hand contents: the whole content, what a position-dependent promotion would see, nothing, near misses"""
+        out = [xbits, xbits, xbits, xbits[8 * skip_bytes:], "", xbits[:len(xbits) // 2]]
+        out.append(rng.choice(near(rng, xbits)))
+        return out
+    # exhaustive: every state x class x order for two payloads (one beyond the hash threshold)
+    payloads = [bytes([0x8f, 0x00, 0x31, 0xfe, 0x07]), bytes(range(200, 256)) + bytes(range(0, 200))]
+    for data in payloads:
+        xbits = "".join(format(b, "08b") for b in data)
+        for kind, states in (("bytesio", BIO_STATES), ("fileobj", FH_STATES)):
+            for state in states:
+                for cls in CLASS_NAMES:
+                    for order in "01":
+                        for abits in (xbits, xbits[24:], ""):
+                            yield L("promst", lsb(), obj(rng, cls, "bin", abits), order, kind, state, data.hex())
+    # random
+    for i in range(N):
+        r = i % 10
+        cls = rng.choice(CLASS_NAMES)
+        order = rng.choice("01")
+        if r < 5:
+            kind, state = "bytesio", rng.choice(BIO_STATES)
+        elif r < 7:
+            kind, state = "fileobj", rng.choice(FH_STATES)
+        elif r < 8:
+            kind, state = "mvslice", "-"
+        else:
+            kind, state = rng.choice(["bytes", "bytearray", "memoryview", "array", "bitarray", "bitarrayle", "list", "tuple", "range", "str"]), "same"
+        if kind in ("bytesio", "fileobj"):
+            nb = rng.choice([0, 1, 2, 3, 4, 5, 8, 9, 16]) if kind == "bytesio" else rng.choice([1, 2, 3, 4, 5, 8, 9, 16])
+            data = bytes(rng.getrandbits(8) for _ in range(nb))
+            xbits = "".join(format(b, "08b") for b in data)
+            payload = data.hex() or "-"
+            skip = {"read1": 1, "read3": 3, "seekmid": nb // 2}.get(state, nb)
+            abits = rng.choice(lefts(xbits, min(skip, nb)))
+        elif kind == "mvslice":
+            nb = rng.choice([0, 1, 4, 7, 8, 12])
+            data = bytes(rng.getrandbits(8) for _ in range(nb))
+            a = rng.choice([None, 0, 1, 2, -3, nb])
+            b = rng.choice([None, nb, nb - 1, -1, 3])
+            c = rng.choice([None, 1, 2, -1, 3, -2])
+            sv = lambda v: "None" if v is None else str(v)
+            payload = (data.hex() or "-") + ";" + ":".join([sv(a), sv(b), sv(c)])
+            xbits = operand_bits(kind, payload)
+            abits = rng.choice([xbits, xbits, "".join(format(v, "08b") for v in data), rng.choice(near(rng, xbits))])
+        else:
+            n = rng.choice([0, 8, 16, 24]) if kind in ("bytes", "bytearray", "memoryview", "array") else rng.choice(SMALL)
+            xbits = content(rng, n)
+            if kind in ("bytes", "bytearray", "memoryview"):
+                payload = _tobytes(xbits).hex() or "-"
+            elif kind == "array":
+                payload = "B:" + (_tobytes(xbits).hex() or "-")
+            elif kind in ("bitarray", "bitarrayle"):
+                payload = wire(xbits)
+            elif kind == "str":
+                payload = '"' + _lit(rng, xbits)
+            elif kind == "range":
+                a, c = rng.randint(-4, 3), rng.choice([1, 2, -1])
+                b = a + c * rng.randint(0, 9)
+                payload = "%d:%d:%d" % (a, b, c)
+                xbits = operand_bits(kind, payload)
+            else:
+                payload = _elems(rng, xbits)
+            abits = rng.choice([xbits, xbits, rng.choice(near(rng, xbits))])
+        route = rng.choice(CHEAP_ROUTES)
+        yield L("promst", lsb(), obj(rng, cls, route, abits), order, kind, state, payload)
